@@ -285,8 +285,9 @@ impl<'a> LfnBuffer<'a> {
         // values to encode (see UTF-16 Surrogate Pairs).
         //
         // We cache the decoded chars into this array so we can iterate them
-        // backwards. It's 60 bytes, but it'll have to do.
-        let mut char_vec: heapless::Vec<char, 13> = heapless::Vec::new();
+        // backwards. It's 60 bytes, but it'll have to do. There is room for the
+        // 13 values of this chunk plus the unpaired surrogate kept from last time.
+        let mut char_vec: heapless::Vec<char, 14> = heapless::Vec::new();
         // Now do the decode, including the unpaired surrogate (if any) from
         // last time (maybe it has a pair now!)
         let mut is_first = true;
